@@ -113,10 +113,14 @@ def big_reaction_lists(tier):
         dict(reactants=[S[6]], products=[S[3]], kind='general', rate=('*', ID('kg'), ('*', ID(S[6]), ID(S[4])))),
         dict(reactants=[S[5]], products=[], kind='massaction', k=1.1, delay=dict(type='fixed', delay='tau', reactants=[S[2]], products=[S[6], S[6], S[0]])),
         dict(reactants=[S[0], S[1], S[2], S[3]], products=[S[4], S[5], S[6]], kind='massaction', k=1e-4),
+        dict(reactants=[S[7]], products=[S[8]], kind='massaction', k=0.8),
+        dict(reactants=[S[8], S[9]], products=[S[10]], kind='massaction', k=0.05),
+        dict(reactants=[S[10]], products=[S[11], S[7]], kind='massaction', k='kf'),
+        dict(reactants=[S[11], S[2]], products=[S[9]], kind='hillpositive', k=1.1, K=3.0, n=2.0, s1=S[10]),
     ]
     out = []
     n = len(base)
-    for size in ((6, 9, 13) if tier == 'quick' else range(5, 14)):
+    for size in ((6, 9, n) if tier == 'quick' else range(5, n + 1)):
         for rot in range(0, n, 1 if tier == 'thorough' else 3):
             lst = [base[(rot + i) % n] for i in range(size)]
             out.append(lst)
@@ -137,8 +141,9 @@ def declarations():
     return d
 
 
-BIGPOOL = ['S0', 'S1', 'S2', 'S3', 'S4', 'S5', 'S6']
-BIGSTATES = [dict(zip(BIGPOOL, v)) for v in ([2.0, 3.0, 5.0, 1.0, 4.0, 0.5, 6.0], [1.0, 0.0, 2.5, 3.0, 0.0, 7.0, 1.5], [60.0, 55.0, 120.0, 75.0, 90.0, 51.0, 200.0])]
+BIGPOOL = ['S%d' % i for i in range(12)]           # twelve: the string order of the indices differs from their numeric order
+BIGSTATES = [dict(zip(BIGPOOL, v)) for v in ([2.0, 3.0, 5.0, 1.0, 4.0, 0.5, 6.0, 1.5, 2.5, 3.5, 0.25, 8.0], [1.0, 0.0, 2.5, 3.0, 0.0, 7.0, 1.5, 0.0, 4.0, 1.0, 2.0, 0.5],
+                                                   [60.0, 55.0, 120.0, 75.0, 90.0, 51.0, 200.0, 66.0, 52.0, 81.0, 99.0, 150.0])]
 
 
 def build(rxs, decl, POOL=POOL, STATES=STATES):
@@ -318,7 +323,7 @@ def run(ctx):
             items.append((rxs, d))
     bigs = big_reaction_lists(ctx.tier)
     for rxs in bigs:
-        for d in ([('explicit', list(BIGPOOL)), ('explicit', list(reversed(BIGPOOL))), ('explicit', BIGPOOL[3:] + BIGPOOL[:3]), ('ic-only', None),
+        for d in ([('explicit', list(BIGPOOL)), ('explicit', list(reversed(BIGPOOL))), ('explicit', BIGPOOL[5:] + BIGPOOL[:5]), ('ic-only', None),
                    ('incremental', None), ('shared-dict-constructor', None), ('shared-dict-create', None), ('create-keywords', None)]):
             items.append((rxs, d, 'big'))
     pmap(check_model, items, ctx, nshards=256)
@@ -343,7 +348,7 @@ def run(ctx):
     ctx.rule = ('E2: single reactions with every reactant x product sequence of length 0..4 over {A,B,C} (quick: 0..3, thinned beyond total '
                 'length 3), every propensity type x delay type x delayed reactant/product lists; ordered pairs (thorough: triples) from a '
                 '12-reaction menu; each under all declaration styles (6 explicit permutations, implicit by the reactions, via the initial '
-                'condition dictionary in two orders, incrementally: first reaction, initialise, then each further reaction followed by an initialisation; and with one parameter dictionary object shared by all mass-action reactions of equal k, through the constructor and through create_reaction; and through the keyword form of create_reaction with empty optional arguments left out). In addition rotations / reversals of a 13-reaction list over 7 species (5..13 reactions, orders 0..4, counts up to 200) under seven declaration styles. Oracle: update arrays equal products minus reactants counted with multiplicity '
+                'condition dictionary in two orders, incrementally: first reaction, initialise, then each further reaction followed by an initialisation; and with one parameter dictionary object shared by all mass-action reactions of equal k, through the constructor and through create_reaction; and through the keyword form of create_reaction with empty optional arguments left out). In addition rotations / reversals of a 17-reaction list over 12 species (5..17 reactions, orders 0..4, counts up to 200) under seven declaration styles. Oracle: update arrays equal products minus reactants counted with multiplicity '
                 '(exact), derivative equals (S+Sd).rate with closed-form rates at 6 states x 2 times (1e-12). Missing value: for every '
                 'parameter position a reaction can mention, the model without that value must fail to initialise, build an interface or '
                 'simulate. states = models; non-trivial = derivative non-zero somewhere; distinct by (reaction list, declaration).')
